@@ -165,6 +165,7 @@ func c06Body(t *rapid.T) {
 	// ---- phase 2: the fault
 	// (a store that also rejects the state update of the automatic pause is a double fault outside the statement: not generated)
 	var fired atomic.Int32
+	var newColl *srcColl
 	isA := func(pk *milvus.Pack) bool {
 		for _, m := range pk.Msgs {
 			if m.Type == commonpb.MsgType_Insert && m.Collection == "ca" {
@@ -201,7 +202,7 @@ func c06Body(t *rapid.T) {
 			}
 			return nil
 		}
-		w.addSourceCollection(t, "default", "cnew", 1, nil)
+		newColl = w.addSourceCollection(t, "default", "cnew", 1, nil)
 		if !waitTicking(p, pchs, 15*time.Second, func() bool { return fired.Load() > 0 }) {
 			t.Fatalf("VERIF-TROUBLE C06: the create-collection DDL of the new collection never reached the downstream")
 		}
@@ -216,16 +217,38 @@ func c06Body(t *rapid.T) {
 	}
 	nFail := rapid.IntRange(1, 3).Draw(t, "rowsAfterFault")
 	var failA []int64
+	var failDeletes []int64 // primary keys of deletes that cannot be addressed (unknown_partition, delete form)
 	if class == "unknown_partition" {
 		// rows for a partition neither the source catalog nor the downstream knows: the reader cannot address them
+		// (an insert into it, or a delete naming it)
 		persistent = true
+		asDelete := rapid.Bool().Draw(t, "unknownPartitionByDelete")
 		for i := 0; i < nFail; i++ {
-			failA = append(failA, p.insertPart(cA, 0, 1, 3, "p_unknown", cA.id+77)...)
+			if asDelete {
+				failDeletes = append(failDeletes, p.deletePart(cA, 0, 3, "p_unknown", cA.id+77))
+			} else {
+				failA = append(failA, p.insertPart(cA, 0, 1, 3, "p_unknown", cA.id+77)...)
+			}
 			p.tick(pchs[0], 3)
+		}
+		if asDelete {
+			// rows of A behind the failing delete: they must not overtake it
+			failA = append(failA, produce(cA, 1)...)
 		}
 		fired.Add(1)
 	} else {
 		failA = produce(cA, nFail)
+	}
+	var cNew *srcColl
+	var rowsNew []int64
+	if class == "ddl_rejected" {
+		// rows written to the new collection while its creation is failing downstream: after the resume they must be read from
+		// the start of the collection
+		cNew = newColl
+		for i := 0; i < rapid.IntRange(0, 2).Draw(t, "rowsForNewCollection"); i++ {
+			rowsNew = append(rowsNew, p.insert(cNew, 0, 1, 3)...)
+			p.tick(pchs[0], 3)
+		}
 	}
 	moreB := produce(cB, rapid.IntRange(1, 3).Draw(t, "rowsForB"))
 	desc := fmt.Sprintf("sameTarget=%v packerMax=%d acked=%d class=%s persistent=%v rowsA=%d rowsB=%d", sameTarget, packerMax, pre+1, class, persistent, nFail, len(moreB))
@@ -293,6 +316,13 @@ func c06Body(t *rapid.T) {
 			}
 		}
 	}
+	if dacc := acceptedDeletes(w.targets[ta]); len(failDeletes) > 0 {
+		for _, k := range failDeletes {
+			if dacc[k] > 0 {
+				t.Fatalf("VERIF-VIOLATION C06 [%s]: the delete of key %d names a partition the downstream does not have, yet it was written downstream (not addressed to any partition) instead of failing the task", desc, k)
+			}
+		}
+	}
 	// checkpoint of A: the message index it names must not exceed the last row of A that was accepted downstream
 	lastAck := uint64(0)
 	for r, fr := range p.fed {
@@ -346,6 +376,30 @@ func c06Body(t *rapid.T) {
 		st.Done()
 		return
 	}
+	if len(failDeletes) > 0 {
+		if !waitTicking(p, pchs, 12*time.Second, func() bool {
+			d := acceptedDeletes(w.targets[ta])
+			for _, k := range failDeletes {
+				if d[k] == 0 {
+					return false
+				}
+			}
+			return true
+		}) {
+			if _, quiet := quiesce.WaitStable(func() int { return w.targets[0].NumCalls() + w.targets[1].NumCalls() }, 6*time.Second); quiet {
+				t.Fatalf("VERIF-VIOLATION C06 [%s]: after resume the failing deletes never reach the downstream (silently skipped)", desc)
+			}
+			st.Count("inconclusive_after_resume(not at rest)", 1)
+		}
+	}
+	if class == "ddl_rejected" && len(rowsNew) > 0 {
+		if !waitTicking(p, pchs, 12*time.Second, arrivedAll(ta, rowsNew)) {
+			if _, quiet := quiesce.WaitStable(func() int { return w.targets[0].NumCalls() + w.targets[1].NumCalls() }, 6*time.Second); quiet {
+				t.Fatalf("VERIF-VIOLATION C06 [%s]: %d rows written to the new collection while its creation was failing never reach the downstream after the resume (the collection is not read from its start)", desc, len(rowsNew))
+			}
+			st.Count("inconclusive_after_resume(not at rest)", 1)
+		}
+	}
 	if class == "ddl_rejected" {
 		// the rejected DDL is not skipped either: after the resume the collection exists downstream
 		if !waitTicking(p, pchs, 12*time.Second, func() bool { return w.targets[ta].Collection("default", "cnew") != nil }) {
@@ -357,6 +411,8 @@ func c06Body(t *rapid.T) {
 		}
 	}
 	st.Class("class:" + class)
+	st.ClassIf(len(failDeletes) > 0, "unknown_partition_named_by_a_delete")
+	st.ClassIf(len(rowsNew) > 0, "rows_for_the_collection_whose_creation_fails")
 	st.ClassIf(sameTarget, "two_tasks_same_target")
 	st.ClassIf(!sameTarget, "two_tasks_different_targets")
 	st.ClassIf(persistent, "persistent_fault")
